@@ -253,15 +253,18 @@ def hyp_search(fn, strategy, *, seed, max_examples, rec, known, shrink=True, max
     swallowed = set()
     for rnd in range(max_rounds):
         last = {}
-        failing = set()   # hashes of cases seen failing in this round
+        failing = {}      # case hash -> Violation raised for it in this round (replays stay consistent)
         calls = [0]       # executions since the first failure
 
         def body(case):
+            h = case_hash(case)
+            if h in failing:
+                raise failing[h]
             if last:
                 calls[0] += 1
                 # shrink budget: once exhausted only cases already seen failing still fail, so the
                 # shrinker converges at once and its final replay of the best case stays consistent
-                if calls[0] > shrink_budget and case_hash(case) not in failing:
+                if calls[0] > shrink_budget:
                     return
             try:
                 fn(case)
@@ -271,12 +274,12 @@ def hyp_search(fn, strategy, *, seed, max_examples, rec, known, shrink=True, max
                     return
                 if v.key in swallowed:
                     return
-                if last and v.key != last["v"].key and calls[0] > 0:
+                if last and v.key != last["v"].key:
                     # a different root cause met while shrinking: keep shrinking the first one
                     return
                 last["v"] = v
                 last["case"] = case
-                failing.add(case_hash(case))
+                failing[h] = v
                 raise
 
         test = given(strategy)(body)
